@@ -110,6 +110,7 @@ func crossCheckFault(bin string, c *IOCase, nth int) (string, string) {
 	sim := runJpgo(c)
 	args := c.args()[1:]
 	cmd := exec.Command(bin)
+	cmd.Env = c.envList()
 	var so, se bytes.Buffer
 	cmd.Stdout, cmd.Stderr = &so, &se
 	var feed func()
@@ -208,4 +209,13 @@ func crossCheckFault(bin string, c *IOCase, nth int) (string, string) {
 		return fmt.Sprintf("case [%s] under a real %s fault: real exit=%d stdout=%q stderr=%q, simulated exit=%d stdout=%q", c.describe(), kind, exit, clip(so.Bytes()), clip(se.Bytes()), sim.exit, clip(sim.stdout)), kind
 	}
 	return "", kind
+}
+
+// envList is the environment of the real process for case c: exactly the simulated one.
+func (c *IOCase) envList() []string {
+	out := []string{}
+	for k, v := range c.Env {
+		out = append(out, k+"="+v)
+	}
+	return out
 }
